@@ -1,1 +1,17 @@
-fn main() {}
+mod record;
+mod sim;
+
+fn main() {
+    let args: Vec<String> = std::env::args().collect();
+    match args.get(1).map(|s| s.as_str()) {
+        Some("record-shapes") => {
+            let v = record::record(std::path::Path::new(&args[2]));
+            println!("{}", serde_json::to_string_pretty(&v).unwrap());
+        }
+        Some("sim") => sim::main(&args[2]),
+        _ => {
+            eprintln!("usage: watch_tools record-shapes <scratch-dir> | sim <input.json>");
+            std::process::exit(2);
+        }
+    }
+}
